@@ -126,7 +126,7 @@ func ParseEvent(raw string) (e *Event) {
 
 		if trailerIndex == -1 {
 			// No trailing argument found, assume the rest is just params.
-			e.Params = strings.Fields(raw[j:])
+			e.Params = splitParams(raw[j:])
 			return e
 		}
 
@@ -149,12 +149,24 @@ func ParseEvent(raw string) (e *Event) {
 	// Check if we need to parse arguments. If so, take everything after the
 	// command, and right before the trailing prefix, and cut it up.
 	if i > j {
-		e.Params = strings.Fields(raw[j : i-1])
+		e.Params = splitParams(raw[j : i-1])
 	}
 
 	e.Params = append(e.Params, raw[i+1:])
 
 	return e
+}
+
+// splitParams splits middle parameters, which are separated by one or more
+// spaces (0x20) only. Other whitespace (TAB, NBSP, ...) is parameter content.
+func splitParams(s string) (out []string) {
+	for _, p := range strings.Split(s, string(eventSpace)) {
+		if p != "" {
+			out = append(out, p)
+		}
+	}
+
+	return out
 }
 
 // Event represents an IRC protocol message, see RFC1459 section 2.3.1
